@@ -51,7 +51,15 @@ func genSlices(c *GenCtx) {
 		}
 		arr := "[" + strings.Join(elems, ",") + "]"
 		str := strings.Join(mixed[:n], "")
-		doc := `{"a":` + arr + `,"s":` + c.jstr(str) + `}`
+		// data-shape variants of the string (a fast path keyed on "all ASCII", "ASCII up to here" must see each): all
+		// single-byte, single-byte with one multi-byte character last, multi-byte first and single-byte after it
+		ascii := "abcdefgh"[:n]
+		asciiLast, asciiFirst := ascii, ascii
+		if n >= 1 {
+			asciiLast = ascii[:n-1] + "é"
+			asciiFirst = "€" + ascii[1:]
+		}
+		doc := `{"a":` + arr + `,"s":` + c.jstr(str) + `,"t":` + c.jstr(ascii) + `,"u":` + c.jstr(asciiLast) + `,"v":` + c.jstr(asciiFirst) + `}`
 		vals := []string{""}
 		for v := -n - 2; v <= n+2; v++ {
 			vals = append(vals, strconv.Itoa(v))
@@ -72,6 +80,11 @@ func genSlices(c *GenCtx) {
 					}
 					c.add("slice-arr", "a["+spec+"]", doc)
 					c.add("slice-str", "s["+spec+"]", doc)
+					c.add("slice-str-ascii", "t["+spec+"]", doc)
+					if n >= 2 {
+						c.add("slice-str-shape", "u["+spec+"]", doc)
+						c.add("slice-str-shape", "v["+spec+"]", doc)
+					}
 				}
 			}
 		}
